@@ -320,6 +320,41 @@ fn through_attribute(text: &str, n_truth: usize, has_alias: bool) -> Option<(Str
     attr_check(&src, text)
 }
 
+/// The derive's own notion of `name =` (not only the splitter's): the first alias whose expression is not a single
+/// identifier is renamed to `_0`, the name of the only field, and is the placeholder's target. For `format_args!` the
+/// placeholder `{_0}` then denotes that argument, not the field, so no `T: Display` bound may be inferred.
+fn alias_shadows_field(c: &ListCase) -> Option<(String, String, String)> {
+    let k = c.elems.iter().position(|(a, e)| {
+        a.is_some() && syn::parse_str::<syn::Expr>(e).map(|x| !is_single_ident(&x) && !matches!(x, syn::Expr::Assign(_))).unwrap_or(false)
+    })?;
+    let mut c2 = c.clone();
+    c2.elems[k].0 = Some("_0".into());
+    c2.trailing_comma = false;
+    let list = c2.text();
+    if !matches!(check_list(&list), Verdict::Ok(_)) {
+        return None;
+    }
+    let src = format!("#[display(\"{{_0}}\", {list})] struct S<T>(T);");
+    let item: syn::DeriveInput = syn::parse_str(&src).ok()?;
+    match dm::expand(Derive::by_name("Display").unwrap(), &item) {
+        Outcome::Ok(ts) => {
+            let has_bound = tok::impls(&ts)
+                .ok()
+                .map(|is| is.iter().any(|i| tok::where_preds(i).iter().any(|(t, b)| t == "T" && b.iter().any(|x| x == "Display"))))
+                .unwrap_or(false);
+            has_bound.then(|| {
+                (
+                    format!("an alias named like the field is not recognised as the placeholder's target for `{src}`"),
+                    "no `T: Display` bound (`{_0}` denotes the named argument `_0 = ..`, as for format_args!)".to_string(),
+                    tok::norm(&ts.to_string()),
+                )
+            })
+        }
+        Outcome::Err(e) => Some((format!("valid argument list rejected for `{src}`"), "an expansion".into(), format!("derive error: {e}"))),
+        Outcome::Panic(_) => None,
+    }
+}
+
 fn attr_check(src: &str, text: &str) -> Option<(String, String, String)> {
     let item: syn::DeriveInput = syn::parse_str(src).ok()?;
     // the sentinel extends the list: a split difference that only shows with it is reported as such (so that the
@@ -514,6 +549,9 @@ pub fn run(ctx: &Ctx) -> Report {
             if let Verdict::Ok(n_truth) = v {
                 // (the generator's own element count may differ from the grammar's: `a.. | |x, y| z, w` reads differently)
                 extra = through_attribute(&text, n_truth, c.elems.iter().any(|(a, _)| a.is_some()));
+                if extra.is_none() {
+                    extra = alias_shadows_field(c);
+                }
             }
             (v, extra, c.elems.len())
         })
